@@ -61,6 +61,10 @@ type eReq struct {
 	HdrVal string `json:"hdrval,omitempty"`
 	// generator hint: the connection id is to be replaced by a valid one at execution time
 	FixConn bool `json:"fixconn,omitempty"`
+	// the post-response hook of this (UDP) request stays pending while the NEXT request is handled (it is released,
+	// together with that request's own hook, only afterwards).  The generator makes the next request concern
+	// another swarm, so the order in which the two hooks run does not show in any observable.
+	Hold bool `json:"hold,omitempty"`
 }
 
 type eRec struct {
@@ -217,7 +221,9 @@ func e2eRun(o *Out, kind string, cfg eCfg, reqs []eReq) {
 	for idx := range reqs {
 		r := &reqs[idx]
 		rec.reset()
-		rec.gate = make(chan struct{})
+		if idx == 0 || !reqs[idx-1].Hold {
+			rec.gate = make(chan struct{})
+		}
 		obs := map[string]interface{}{}
 		cancel := wedgeWatch(wedgeLimit, fmt.Sprintf("request %d (%s) of an end-to-end history", idx, r.T), func() map[string]interface{} {
 			var jr []interface{}
@@ -249,14 +255,18 @@ func e2eRun(o *Out, kind string, cfg eCfg, reqs []eReq) {
 			for i := range buf {
 				buf[i] = 0
 			}
-			close(rec.gate)
-			if !rec.wait() {
-				var jr []interface{}
-				for _, q := range reqs[:idx+1] {
-					jr = append(jr, q)
+			// Hold: keep this request's post-response hook pending across the next request
+			r.Hold = r.Hold && idx+1 < len(reqs) && reqs[idx+1].T == "udp"
+			if !r.Hold {
+				close(rec.gate)
+				if !rec.wait() {
+					var jr []interface{}
+					for _, q := range reqs[:idx+1] {
+						jr = append(jr, q)
+					}
+					wedgeFail(fmt.Sprintf("the post-response hook of request %d (%s) of an end-to-end history did not finish within %v", idx, r.T, wedgeLimit),
+						map[string]interface{}{"cfg": cfg, "reqs": jr})
 				}
-				wedgeFail(fmt.Sprintf("the post-response hook of request %d (%s) of an end-to-end history did not finish within %v", idx, r.T, wedgeLimit),
-					map[string]interface{}{"cfg": cfg, "reqs": jr})
 			}
 			var macs []string
 			add := func(m []byte) {
@@ -441,7 +451,61 @@ func e2eAnnouncePacket(rng *rand.Rand, v6action bool, ih, pid []byte, left uint6
 	return b.Bytes()
 }
 
+// e2eBulk: one large swarm per family built over UDP, then announces with large numwant over UDP (both action
+// codes) and HTTP (compact and dictionary form): everything the logic selected must reach the wire, however
+// many peers that is (datagram and body size limits, batch boundaries inside the writers).
+func e2eBulk(o *Out, rng *rand.Rand) {
+	cfg := eCfg{Key: "e2e-bulk-key", SkewNs: int64(10 * time.Second), MaxNW: 400, DefNW: 50, MaxScrape: 50,
+		Interval: int64(30 * time.Minute), MinIntv: int64(15 * time.Minute)}
+	ih := make([]byte, 20)
+	rng.Read(ih)
+	clock := int64(1_700_000_000_000_000_000)
+	reqs := []eReq{{T: "clock", Ns: clock}}
+	n6, n4 := 85+rng.Intn(30), 245+rng.Intn(30)
+	mk := func(k int, v6 bool) e2ePeer {
+		id := make([]byte, 20)
+		copy(id, []byte("-BK0002-"))
+		binary.BigEndian.PutUint32(id[16:], uint32(k))
+		if v6 {
+			ip := net.ParseIP("2001:db8:1::")
+			binary.BigEndian.PutUint32(ip[12:], uint32(k+1))
+			return e2ePeer{id: id, src: ip, port: uint16(2000 + k)}
+		}
+		return e2ePeer{id: id, src: []byte{10, 9, byte(k >> 8), byte(k)}, port: uint16(2000 + k)}
+	}
+	ann := func(p e2ePeer, v6a bool, left uint64, nw uint32) {
+		fl := 4
+		if v6a {
+			fl = 16
+		}
+		pkt := e2eAnnouncePacket(rng, v6a, ih, p.id, left, 0, make([]byte, fl), nw, p.port, nil)
+		reqs = append(reqs, eReq{T: "udp", IP: hx(p.src), Packet: hx(pkt), FixConn: true})
+	}
+	for k := 0; k < n6; k++ {
+		ann(mk(k, true), k%2 == 0, uint64(k%3), 0)
+	}
+	for k := 0; k < n4; k++ {
+		ann(mk(k, false), false, uint64(k%2), 0)
+	}
+	// large numwant from a member and from a newcomer of each family, over UDP ...
+	for _, nw := range []uint32{80, 81, 100, 243, 400} {
+		ann(mk(1, true), true, 1, nw)
+		ann(mk(5000, true), false, 0, nw)
+		ann(mk(1, false), false, 1, nw)
+	}
+	// ... and over HTTP
+	for _, q := range []string{"compact=1&numwant=400", "compact=0&numwant=300", "numwant=90"} {
+		uri := fmt.Sprintf("/announce?info_hash=%s&peer_id=%s&port=7001&left=5&uploaded=0&downloaded=0&%s", url.QueryEscape(string(ih)), url.QueryEscape(string(mk(2, false).id)), q)
+		reqs = append(reqs, eReq{T: "hann", URI: hx([]byte(uri)), Remote: "10.9.0.2:7001"})
+		uri6 := fmt.Sprintf("/announce?info_hash=%s&peer_id=%s&port=7002&left=0&uploaded=0&downloaded=0&%s", url.QueryEscape(string(ih)), url.QueryEscape(string(mk(2, true).id)), q)
+		reqs = append(reqs, eReq{T: "hann", URI: hx([]byte(uri6)), Remote: "[2001:db8:1::3]:7002"})
+	}
+	reqs = append(reqs, eReq{T: "dump"})
+	e2eRun(o, "e2e-bulk", cfg, reqs)
+}
+
 func e2eStream(o *Out, rng *rand.Rand, n int) {
+	e2eBulk(o, rng)
 	for h := 0; h < n; h++ {
 		cfg := eCfg{Key: "e2e-key-" + fmt.Sprint(rng.Intn(1000)), SkewNs: int64(rng.Intn(3)) * int64(10*time.Second), USpoof: rng.Intn(3) == 0, HSpoof: rng.Intn(4) == 0,
 			MaxNW: []uint32{100, 3, 1}[rng.Intn(3)], DefNW: []uint32{50, 2, 5}[rng.Intn(3)], MaxScrape: []uint32{50, 2}[rng.Intn(2)],
@@ -526,6 +590,21 @@ func e2eStream(o *Out, rng *rand.Rand, n int) {
 					}
 				}
 				pkt := e2eAnnouncePacket(rng, v6a, ih, p.id, left, uint32(rng.Intn(4)), field, nw, p.port, opts)
+				if rng.Intn(5) == 0 {
+					// two datagrams in flight: the second one (another peer, ANOTHER swarm) is handled while the first one's
+					// post-response hook is still pending
+					var ih2 []byte
+					for _, c := range ihs {
+						if !bytes.Equal(c, ih) {
+							ih2 = c
+						}
+					}
+					p2 := peers[rng.Intn(len(peers))]
+					pkt2 := e2eAnnouncePacket(rng, false, ih2, p2.id, uint64(rng.Intn(2)), 0, make([]byte, 4), 5, p2.port, nil)
+					reqs = append(reqs, eReq{T: "udp", IP: hx(p.src), Packet: hx(pkt), FixConn: true, Hold: true},
+						eReq{T: "udp", IP: hx(p2.src), Packet: hx(pkt2), FixConn: true})
+					continue
+				}
 				reqs = append(reqs, eReq{T: "udp", IP: hx(p.src), Packet: hx(pkt), FixConn: true})
 			case r < 38: // UDP scrape
 				var b bytes.Buffer
